@@ -291,6 +291,10 @@ class Engine:
         if s in ("np.nan",): return Val("float", F.NaN)
         if s == "np.inf": return Val("float", self.specs.setdefault("__inf__", z3.Const("INF", F)))
         if s.startswith(("np.", "nb.")) and (s[3:] in INT_RANGES or s[3:] in ("float64", "float32", "bool_")): return Val("str", name=s[3:])
+        if isinstance(e.value, ast.Name) and e.value.id in st.env and st.env[e.value.id].kind == "struct":
+            sv = st.env[e.value.id]
+            if e.attr in sv.items: return sv.items[e.attr]
+            raise Stale(f"attribute {s} is not part of the instantiation of {e.value.id!r}")
         if e.attr == "dtype":
             saved = self.in_spec; self.in_spec = True       # reading .dtype touches no element
             try: a = self.ev(st, e.value)
@@ -485,6 +489,7 @@ class Engine:
             a = args[0]
             if a.kind == "arr": return Val("int", self.arr_len(st, a))
             if a.kind == "chunks": return Val("int", a.z)
+            if a.kind == "struct" and "__len__" in a.items: return a.items["__len__"]
         if fname == "is_null": return Val("bool", self.is_null(args[0]))
         if fname == "getattr" and len(args) == 2 and args[1].kind == "func": return args[1]      # getattr(ScalarFuncs, name): the name parameter is instantiated as the step function it names
         if fname == "np.isnan": return Val("bool", f_isnan(self.to_float(args[0])))
@@ -868,7 +873,31 @@ class Engine:
         cname = f"_it{o}"
         if self.bmc:
             n = z3.simplify(n_iter)
-            if not z3.is_int_value(n): raise Unsupported(f"BMC needs a concrete trip count for loop {o}: {n}")
+            if not z3.is_int_value(n):
+                # a trip count that depends on the data (range(start, len(arr)) with a computed start): unroll up to a fuel, forking on "one more iteration?"
+                cur = [st]; outs = []; exited = []
+                for c_ in range(8):
+                    nxt = []
+                    for s_ in cur:
+                        g = z3.simplify(z3.IntVal(c_) < n_iter)
+                        if not z3.is_true(g):
+                            x_ = s_.fork(); x_.pc.append(z3.Not(g))
+                            if z3.is_false(g) or self.feasible(x_): x_.env[cname] = Val("int", z3.IntVal(c_)); exited.append(x_)
+                        if z3.is_false(g): continue
+                        b_ = s_.fork(); b_.pc.append(g)
+                        if not (z3.is_true(g) or self.feasible(b_)): continue
+                        b_.env[cname] = Val("int", z3.IntVal(c_)); self.assign(b_, s.target, bind(b_, z3.IntVal(c_)), s.lineno)
+                        for hint in lc.get("unfold", []): b_.pc.append(self.spec(b_, hint))
+                        for kind, e_st, val in self.run_block(b_, s.body):
+                            if kind in ("normal", "continue"):
+                                e_st.env[cname] = Val("int", z3.IntVal(c_ + 1))
+                                for code in lc.get("ghost_at_end", []): self.run_ghost(e_st, code)
+                                nxt.append(e_st)
+                            elif kind == "break": outs.append(("normal", e_st, None))
+                            else: outs.append((kind, e_st, val))
+                    cur = nxt
+                    if not cur: break
+                return outs + [("normal", s_, None) for s_ in exited]
             cur = [st]; outs = []
             for c_ in range(n.as_long()):
                 nxt = []
@@ -888,6 +917,13 @@ class Engine:
             for s_ in cur: s_.env[cname] = Val("int", z3.IntVal(n.as_long()))
             return outs + [("normal", s_, None) for s_ in cur]
         st.env[cname] = Val("int", z3.IntVal(0))
+        tgt_names = [x.id for x in ast.walk(s.target) if isinstance(x, ast.Name)]
+        if any(nm not in st.env for nm in tgt_names):
+            probe = bind(st, z3.IntVal(0)); flat = list(probe.items) if probe.kind == "tuple" else [probe]
+            tl = list(s.target.elts) if isinstance(s.target, ast.Tuple) else [s.target]
+            for tnode, pv in zip(tl, flat):
+                if isinstance(tnode, ast.Name) and tnode.id not in st.env and pv.kind in ("int", "float", "bool", "opaque"):
+                    st.env[tnode.id] = Val(pv.kind, self.fc(tnode.id + "_unbound", sort_of(pv.kind)))
         for j, inv in enumerate(lc["invariant"]): self.emit(st, "inv_init", self.spec(st, inv), s.lineno, f"[loop{o}.{j}]")
         names, arrays = self.modified(s.body)
         h = st.fork(); c = self.fc(cname, I); h.env[cname] = Val("int", c)
@@ -1093,6 +1129,8 @@ class Engine:
         return self.obls
 
     def mk_param(self, st, name, t):
+        if isinstance(t, dict):      # an object read only through its attributes (self, a slice): one symbolic value per attribute named by the instantiation
+            return Val("struct", items={k: self.mk_param(st, f"{name}.{k}", v) for k, v in t.items()}, name=name)
         if t == "none": return Val("none")
         if t in ("int", "float", "bool", "opaque"): return Val(t, z3.Const(name, sort_of(t)))
         if t.startswith("const:"):
